@@ -205,7 +205,7 @@ def gen_sequence(rng, quick=True):
             if kf.min_eig_sym(pr) <= 0:
                 pr = pr + np.eye(n) * (1e-12 * _n2(pr) - kf.min_eig_sym(pr))
         steps.append({"obs": obs})
-    return {"kind": "seq", "n": n, "alpha": alpha, "beta": beta, "kappa": kappa, "resample": resample, "fkind": fkind, "qkind": qkind,
+    return {"kind": "seq", "boundary": rng.random() < 0.4, "n": n, "alpha": alpha, "beta": beta, "kappa": kappa, "resample": resample, "fkind": fkind, "qkind": qkind,
             "x0": [float(v) for v in x0], "P0": _L(p0), "Q": _L(q), "F": [_L(f) for f in fs], "steps": steps}
 
 
@@ -314,6 +314,15 @@ def _call(ctx, w, what, fn, *a):
         raise _FilterRaised from e
 
 
+def _ray_copy(obj):
+    """What crossing a Ray job boundary does to an object: pickle protocol 5, out-of-band buffers come back read-only."""
+    import pickle
+
+    bufs = []
+    data = pickle.dumps(obj, protocol=5, buffer_callback=bufs.append)
+    return pickle.loads(data, buffers=[bytes(b.raw()) for b in bufs])
+
+
 def run_sequence(ctx, spec, stats=None):
     n = spec["n"]
     alpha, beta, kappa, resample = spec["alpha"], spec["beta"], spec["kappa"], spec["resample"]
@@ -342,8 +351,10 @@ def run_sequence(ctx, spec, stats=None):
     w1 = float(np.sum(np.abs(wm)))
     ctx.check(abs(float(np.sum(wm)) - 1.0) <= 8 * (2 * n + 1) * EPS * w1, "weights-sum",
               f"sum(mean_weight) = {float(np.sum(wm))!r} (n={n}, alpha={alpha}, kappa={kappa})", wit(0), mon="weights_sum_one")
-    ok_w = (wm.shape == wm_r.shape and np.all(np.abs(wm - wm_r) <= 16 * EPS * np.abs(wm_r) + 1e-300)
-            and np.all(np.abs(wc - wc_r) <= 16 * EPS * (np.abs(wm_r) + 1 + alpha * alpha + beta))
+    # lambda = alpha^2 (n + kappa) - n cancels for small alpha: equivalent ways of writing Wm0 = lambda / (n + lambda) differ by a
+    # few eps * (1 + |Wm0|) in the *absolute* value of lambda/(n+lambda); 256 eps covers every algebraically equivalent form
+    ok_w = (wm.shape == wm_r.shape and np.all(np.abs(wm - wm_r) <= 256 * EPS * (np.abs(wm_r) + 1.0) + 1e-300)
+            and np.all(np.abs(wc - wc_r) <= 256 * EPS * (np.abs(wm_r) + 1 + alpha * alpha + beta))
             and _mx(wcm - np.diag(wc)) == 0.0 and abs(float(f.gamma) - g_r) <= 16 * EPS * g_r)
     ctx.check(bool(ok_w), "weights-ne-scaled-ut", f"weights/gamma differ from the scaled unscented transform: Wm0={wm[0]!r} vs {wm_r[0]!r}, "
               f"Wc0={wc[0]!r} vs {wc_r[0]!r}, gamma={float(f.gamma)!r} vs {g_r!r}", wit(0), mon="weights_scaled_ut")
@@ -354,12 +365,23 @@ def run_sequence(ctx, spec, stats=None):
     for k, step in enumerate(spec["steps"]):
         w = wit(k)
         fm = fs[k % len(fs)]
+        if spec.get("boundary"):
+            dyn = f.dynamics  # the long-lived filter was replaced by the copy the update job returned
         dyn.F = fm
         x_prev = np.array(f.est_x, dtype=float, copy=True)
         p_prev = np.array(f.est_p, dtype=float, copy=True)
         t += 60.0
+        boundary = bool(spec.get("boundary"))
         try:
-            _call(ctx, w, "predict", f.predict, st.scenario_time(t))
+            if boundary:
+                # the simulator's parallel path: predict() runs on a pickled copy inside a job, only the
+                # prediction result travels back and is applied to the long-lived filter
+                fc = _ray_copy(f)
+                _call(ctx, w, "predict", fc.predict, st.scenario_time(t))
+                _ray_copy(fc.getPredictionResult()).apply(f)
+                dyn = fc.dynamics
+            else:
+                _call(ctx, w, "predict", f.predict, st.scenario_time(t))
         except np.linalg.LinAlgError:
             lam = kf.min_eig_sym(p_prev)
             singular = lam <= tp_last + 64 * n * EPS * max(_n2(p_prev), 1e-300)
@@ -395,7 +417,12 @@ def run_sequence(ctx, spec, stats=None):
         obs_specs = step["obs"]
         if not obs_specs:
             try:
-                _call(ctx, w, "update([])", f.update, [])
+                if boundary:
+                    fc = _ray_copy(f)
+                    _call(ctx, w, "update([])", fc.update, [])
+                    f = _ray_copy(fc)
+                else:
+                    _call(ctx, w, "update([])", f.update, [])
             except _FilterRaised:
                 break
             stats["noobs"] += 1
@@ -422,7 +449,13 @@ def run_sequence(ctx, spec, stats=None):
         ev_s = np.linalg.eigvalsh(kf.sym(h @ (ppf if resample else pbar) @ h.T) + r)
         s_singular = not np.all(np.isfinite(ev_s)) or ev_s[0] <= 1e-14 * ev_s[-1]
         try:
-            _call(ctx, w, "update", f.update, obs)
+            if boundary:
+                # the update job works on a copy fetched from the object store; the agent then adopts the returned filter
+                fc = _ray_copy(f)
+                _call(ctx, w, "update", fc.update, obs)
+                f = _ray_copy(fc)
+            else:
+                _call(ctx, w, "update", f.update, obs)
         except np.linalg.LinAlgError:
             lam = kf.min_eig_sym(pred_p)
             ctx.check(s_singular or lam <= tol_p + 64 * n * EPS * _n2(pred_p), "linalg-error-on-regular-input",
